@@ -6,8 +6,8 @@ from layers.integ import layer_int, RecDisc, FakeMesh, FakeModel
 
 MODULE = 'Flowdyn.Props.C07'
 import core
-THEOREMS = core.theorems_in(['C07.lean'], 'Flowdyn.C07') + ['Flowdyn.C06.implicit_time', 'Flowdyn.C06.trapezoidal_time', 'Flowdyn.C06.gear_time', 'Flowdyn.C06.gear_first_is_trapezoidal'] + ['Flowdyn.C05.%s_step' % c for c in ('explicit', 'rk2', 'rk2_heun', 'rk3_heun', 'rk3ssp', 'rk4')] + ['Flowdyn.C05.lsStep_snoc']
-AUDIT_IMPORTS = ['Flowdyn.Props.C06', 'Flowdyn.Props.C05']
+THEOREMS = core.theorems_in(['C07.lean', 'C07b.lean'], 'Flowdyn.C07') + ['Flowdyn.C06.implicit_time', 'Flowdyn.C06.trapezoidal_time', 'Flowdyn.C06.gear_time', 'Flowdyn.C06.gear_first_is_trapezoidal'] + ['Flowdyn.C05.%s_step' % c for c in ('explicit', 'rk2', 'rk2_heun', 'rk3_heun', 'rk3ssp', 'rk4')] + ['Flowdyn.C05.lsStep_snoc']
+AUDIT_IMPORTS = ['Flowdyn.Props.C06', 'Flowdyn.Props.C05', 'Flowdyn.Props.C07b']
 PARTIAL = {}
 LEVEL_NOTE = "driver state machine (solve/restart/_solve) modelled and proved; integrator time advance from C05/C06 models"
 
